@@ -399,6 +399,7 @@ func PutInsertStatement(stmt *InsertStatement) {
 	if stmt == nil {
 		return
 	}
+	forgetSpan(stmt)
 
 	// Clean up expressions
 	for i := range stmt.Columns {
@@ -431,6 +432,7 @@ func PutUpdateStatement(stmt *UpdateStatement) {
 	if stmt == nil {
 		return
 	}
+	forgetSpan(stmt)
 
 	// Clean up expressions
 	for i := range stmt.Assignments {
@@ -458,6 +460,7 @@ func PutDeleteStatement(stmt *DeleteStatement) {
 	if stmt == nil {
 		return
 	}
+	forgetSpan(stmt)
 
 	// Clean up expressions
 	PutExpression(stmt.Where)
@@ -479,6 +482,7 @@ func PutUpdateExpression(expr *UpdateExpression) {
 	if expr == nil {
 		return
 	}
+	forgetSpan(expr)
 
 	// Clean up expressions
 	PutExpression(expr.Column)
@@ -506,6 +510,7 @@ func PutSelectStatement(stmt *SelectStatement) {
 	if stmt == nil {
 		return
 	}
+	forgetSpan(stmt)
 
 	// Collect all expressions to clean up
 	expressions := make([]Expression, 0, len(stmt.Columns)+len(stmt.OrderBy)+3)
@@ -565,6 +570,7 @@ func PutIdentifier(ident *Identifier) {
 	if ident == nil {
 		return
 	}
+	forgetSpan(ident)
 	ident.Name = ""
 	ident.Table = ""
 	identifierPool.Put(ident)
@@ -580,6 +586,7 @@ func PutBinaryExpression(expr *BinaryExpression) {
 	if expr == nil {
 		return
 	}
+	forgetSpan(expr)
 	PutExpression(expr.Left)
 	PutExpression(expr.Right)
 	expr.Left = nil
@@ -619,6 +626,7 @@ func PutLiteralValue(lit *LiteralValue) {
 	if lit == nil {
 		return
 	}
+	forgetSpan(lit)
 
 	// Reset fields (Value is interface{}, use nil as zero value)
 	lit.Value = nil
@@ -719,6 +727,7 @@ func PutExpression(expr Expression) {
 		if current == nil {
 			continue
 		}
+		forgetSpan(current)
 
 		// Process and collect child expressions
 		switch e := current.(type) {
@@ -982,6 +991,7 @@ func PutFunctionCall(fc *FunctionCall) {
 	if fc == nil {
 		return
 	}
+	forgetSpan(fc)
 	for i := range fc.Arguments {
 		PutExpression(fc.Arguments[i])
 		fc.Arguments[i] = nil
@@ -1008,6 +1018,7 @@ func PutCaseExpression(ce *CaseExpression) {
 	if ce == nil {
 		return
 	}
+	forgetSpan(ce)
 	PutExpression(ce.Value)
 	ce.Value = nil
 	for i := range ce.WhenClauses {
@@ -1031,6 +1042,7 @@ func PutBetweenExpression(be *BetweenExpression) {
 	if be == nil {
 		return
 	}
+	forgetSpan(be)
 	PutExpression(be.Expr)
 	PutExpression(be.Lower)
 	PutExpression(be.Upper)
@@ -1053,6 +1065,7 @@ func PutInExpression(ie *InExpression) {
 	if ie == nil {
 		return
 	}
+	forgetSpan(ie)
 	PutExpression(ie.Expr)
 	ie.Expr = nil
 	for i := range ie.List {
@@ -1077,6 +1090,7 @@ func PutTupleExpression(te *TupleExpression) {
 	if te == nil {
 		return
 	}
+	forgetSpan(te)
 	for i := range te.Expressions {
 		PutExpression(te.Expressions[i])
 		te.Expressions[i] = nil
@@ -1098,6 +1112,7 @@ func PutArrayConstructor(ac *ArrayConstructorExpression) {
 	if ac == nil {
 		return
 	}
+	forgetSpan(ac)
 	for i := range ac.Elements {
 		PutExpression(ac.Elements[i])
 		ac.Elements[i] = nil
@@ -1117,6 +1132,7 @@ func PutSubqueryExpression(se *SubqueryExpression) {
 	if se == nil {
 		return
 	}
+	forgetSpan(se)
 	se.Subquery = nil
 	subqueryExprPool.Put(se)
 }
@@ -1131,6 +1147,7 @@ func PutCastExpression(ce *CastExpression) {
 	if ce == nil {
 		return
 	}
+	forgetSpan(ce)
 	PutExpression(ce.Expr)
 	ce.Expr = nil
 	ce.Type = ""
@@ -1147,6 +1164,7 @@ func PutIntervalExpression(ie *IntervalExpression) {
 	if ie == nil {
 		return
 	}
+	forgetSpan(ie)
 	ie.Value = ""
 	intervalExprPool.Put(ie)
 }
@@ -1161,6 +1179,7 @@ func PutAliasedExpression(ae *AliasedExpression) {
 	if ae == nil {
 		return
 	}
+	forgetSpan(ae)
 	PutExpression(ae.Expr)
 	ae.Expr = nil
 	ae.Alias = ""
@@ -1177,6 +1196,7 @@ func PutArraySubscriptExpression(ase *ArraySubscriptExpression) {
 	if ase == nil {
 		return
 	}
+	forgetSpan(ase)
 	// Clean up array expression
 	if ase.Array != nil {
 		PutExpression(ase.Array)
@@ -1203,6 +1223,7 @@ func PutArraySliceExpression(ase *ArraySliceExpression) {
 	if ase == nil {
 		return
 	}
+	forgetSpan(ase)
 	// Clean up array expression
 	if ase.Array != nil {
 		PutExpression(ase.Array)
